@@ -241,9 +241,10 @@ def train_off_policy(
         pop_fps = []
         for agent_idx, agent in enumerate(pop):  # Loop through population
             state, info = env.reset()  # Reset environment at start of episode
-            if n_step_memory is not None:
-                # The pending n-step window belongs to the abandoned episodes
-                n_step_memory.n_step_buffer.clear()
+            # The pending n-step window belongs to the abandoned episodes
+            pending_window = getattr(n_step_memory, "n_step_buffer", None)
+            if pending_window is not None:
+                pending_window.clear()
             scores = np.zeros(num_envs)
             completed_episode_scores, losses = [], []
             steps = 0
